@@ -606,4 +606,4 @@ pub enum ParseErrorLevel {
 // verification hooks (glass_easel_verif): compiled only under the cfg guard
 #[cfg(any(kani, glass_easel_verif))]
 #[path = "/verif/hooks/tc_parse.rs"]
-mod verif;
+pub mod verif;
